@@ -106,7 +106,7 @@ func main() {
 			if err := format.Node(&buf, fset, file); err != nil {
 				fatal(fmt.Errorf("%s: %v", f, err))
 			}
-			rel := strings.TrimPrefix(f, "/repo/")
+			rel := strings.TrimPrefix(f, repoRoot()+"/")
 			dst := filepath.Join(out, strings.ReplaceAll(rel, "/", "__")+".txt")
 			os.MkdirAll(filepath.Dir(dst), 0755)
 			if err := os.WriteFile(dst, buf.Bytes(), 0644); err != nil {
@@ -166,4 +166,11 @@ func rewriteGo(g *ast.GoStmt, n *int) ast.Stmt {
 	goCall := &ast.CallExpr{Fun: &ast.SelectorExpr{X: ast.NewIdent("__vs"), Sel: ast.NewIdent("Go")}, Args: []ast.Expr{lit}}
 	stmts = append(stmts, &ast.ExprStmt{X: goCall})
 	return &ast.BlockStmt{List: stmts}
+}
+
+func repoRoot() string {
+	if r := os.Getenv("VERIF_REPO"); r != "" {
+		return r
+	}
+	return "/repo"
 }
